@@ -209,20 +209,19 @@ func makeAccumulatorFunc(expr parser.ItemType) (newAccumulatorFunc, error) {
 		}, nil
 	case "avg":
 		return func() *accumulator {
-			var count, sum float64
+			var count, mean float64
 			var hasValue bool
 
 			return &accumulator{
 				AddFunc: func(v float64) {
+					mean, count = avgInc(v, mean, count)
 					hasValue = true
-					count += 1
-					sum += v
 				},
-				ValueFunc: func() float64 { return sum / count },
+				ValueFunc: func() float64 { return mean },
 				HasValue:  func() bool { return hasValue },
 				Reset: func(_ float64) {
 					hasValue = false
-					sum = 0
+					mean = 0
 					count = 0
 				},
 			}
@@ -341,6 +340,25 @@ func makeAccumulatorFunc(expr parser.ItemType) (newAccumulatorFunc, error) {
 	}
 	msg := fmt.Sprintf("unknown aggregation function %s", t)
 	return nil, errors.Wrap(parse.ErrNotSupportedExpr, msg)
+}
+
+// avgInc adds v to the running mean of count samples the way the Prometheus
+// engine does: incrementally, so that the intermediate sum cannot overflow, and
+// keeping an infinite mean instead of turning it into NaN.
+func avgInc(v, mean, count float64) (float64, float64) {
+	count++
+	if count == 1 {
+		return v, count
+	}
+	if math.IsInf(mean, 0) {
+		if math.IsInf(v, 0) && (mean > 0) == (v > 0) {
+			return mean, count
+		}
+		if !math.IsInf(v, 0) && !math.IsNaN(v) {
+			return mean, count
+		}
+	}
+	return mean + (v/count - mean/count), count
 }
 
 func quantile(q float64, points []float64) float64 {
